@@ -141,7 +141,6 @@ Section Account.
       { destruct (hk m =? 1)%nat; [exact Ha|]. apply (IH PCheckHalt s debt Ha). }
       intros s1 K1.
       pose proof (A_enq_async (next_hop c (mdest m)) m (scnt s1 + 1) debt s1 K1) as K3.
-      destruct (inprq (enqueue c (next_hop c (mdest m)) m (set_scnt (scnt s1 + 1) s1))); [exact K3|].
       apply (IH PFlushToCap _ debt K3).
     - (* PQueueBytes *)
       intros debt Ha. cbn [run]. exact (A_enq_async d m (scnt s + 1) debt s Ha).
@@ -149,7 +148,7 @@ Section Account.
       intros debt Ha. cbn [run].
       eapply resC_bind with (P1 := A debt); [apply (IH PCheckHalt s debt Ha)|]. intros s1 K1.
       eapply resC_bind with (P1 := A debt); [apply (IH (PQueueMany _ _) s1 debt K1)|]. intros s2 K2.
-      destruct (inprq s2); [exact K2|apply (IH PFlushToCap s2 debt K2)].
+      apply (IH PFlushToCap s2 debt K2).
     - (* PMcast *)
       intros debt Ha. destruct ds as [|d ds]; cbn [run]; [exact Ha|].
       eapply resC_bind with (P1 := A debt); [apply (IH (PAsync _) s debt Ha)|].
